@@ -4,6 +4,7 @@ import (
 	goat "github.com/avos-io/goat"
 	"github.com/avos-io/goat/gen/goatorepo"
 	"goatverif/wire"
+	"runtime"
 
 	"context"
 	"fmt"
@@ -156,7 +157,7 @@ func init() {
 		ID:    "C15",
 		Level: "exploration",
 		Race:  true,
-		Rule:  "the quick case lists of C01-C05, C07, C09-C11, C14, C16-C20 (unary and stream workloads with separate sender/receiver goroutines, Header/Trailer concurrent with sends, cancellations, Stop and transport failures concurrent with traffic, proxy and demux with up to 8 peers, HTTP cleaner) plus a dedicated workload in which every accessor the API allows to run concurrently does so (handler goroutines SetHeader/SendHeader, SendMsg, SetTrailer, RecvMsg; caller goroutines Header, Recv, Send+CloseSend, Trailer; unary calls alongside), a proxy workload in which peers are attached by goroutines of their own (as an accept loop does) while other peers' connections fail, are dialled or forward traffic, and a workload in which a stream is aborted from its sending and its receiving goroutine at the same time (send of an unmarshalable message / write failure vs. undecodable response) are re-run in a binary built with -race, GOMAXPROCS cycling over {1,2,4,16}, with the seeded yield/sleep plans at every hook point; every race-detector report with a goat frame in either stack is a violation (de-duplicated by innermost goat frames), a report without goat frames fails the run as a harness bug. evaluations = workload cases run under the detector; non-trivial = run on more than one OS thread; distinct = (workload, index, GOMAXPROCS).",
+		Rule:  "the quick case lists of C01-C05, C07, C09-C11, C14, C16-C20 (unary and stream workloads with separate sender/receiver goroutines, Header/Trailer concurrent with sends, cancellations, Stop and transport failures concurrent with traffic, proxy and demux with up to 8 peers, HTTP cleaner) plus a dedicated workload in which every accessor the API allows to run concurrently does so (handler goroutines SetHeader/SendHeader, SendMsg, SetTrailer, RecvMsg; caller goroutines Header, Recv, Send+CloseSend, Trailer; unary calls alongside whose handlers leave a goroutine behind that keeps calling grpc.SetHeader / grpc.SetTrailer while and after the handler returns), a proxy workload in which peers are attached by goroutines of their own (as an accept loop does) while other peers' connections fail, are dialled or forward traffic, and a workload in which a stream is aborted from its sending and its receiving goroutine at the same time (send of an unmarshalable message / write failure vs. undecodable response) are re-run in a binary built with -race, GOMAXPROCS cycling over {1,2,4,16}, with the seeded yield/sleep plans at every hook point; every race-detector report with a goat frame in either stack is a violation (de-duplicated by innermost goat frames), a report without goat frames fails the run as a harness bug. evaluations = workload cases run under the detector; non-trivial = run on more than one OS thread; distinct = (workload, index, GOMAXPROCS).",
 		Plan:  func(tier string, seed int64) int { return len(c15List(tier)) },
 		Run:   c15Run,
 		RequiredStats: func(string) []string {
@@ -209,6 +210,26 @@ func c15Accessors(tier string, seed int64, idx int) *core.Result {
 			return nil
 		})
 	}
+	// a unary handler that leaves a goroutine behind which goes on setting response metadata on the
+	// call's context while, and shortly after, the handler returns (grpc.SetHeader / SetTrailer may
+	// be called from any goroutine; late calls may fail but must not race with the reply being built)
+	var stragglers sync.WaitGroup
+	for s := 0; s < n; s++ {
+		b.Impl.SetUnary("u-"+fmt.Sprintf("acc%d-%d", idx, s), func(ctx context.Context, t string, req []byte) ([]byte, error) {
+			grpc.SetHeader(ctx, metadata.Pairs("uh", "first"))
+			grpc.SetTrailer(ctx, metadata.Pairs("ut", "first"))
+			stragglers.Add(1)
+			go func() {
+				defer stragglers.Done()
+				for i := 0; i < 40; i++ {
+					grpc.SetHeader(ctx, metadata.Pairs("uh", "late"))
+					grpc.SetTrailer(ctx, metadata.Pairs("ut", "late"))
+					runtime.Gosched()
+				}
+			}()
+			return req, nil
+		})
+	}
 	var w Waiter
 	for s := 0; s < n; s++ {
 		tag := fmt.Sprintf("acc%d-%d", idx, s)
@@ -247,6 +268,7 @@ func c15Accessors(tier string, seed int64, idx int) *core.Result {
 	if st != "ok" {
 		res.Verdict, res.Note = core.Inconclusive, "concurrent-accessor workload did not finish: "+st
 	}
+	stragglers.Wait()
 	res.Stat("concurrent_accessor_streams", int64(n))
 	finish(tier, b, h, res)
 	return res
